@@ -1,3 +1,3 @@
-From JamV Require Import Model.PvmRun.
+From JamV Require Import Model.PvmRun Model.PvmRange.
 Require Import ExtrOcamlBasic.
-Extraction "model.ml" N.of_nat N.to_nat Z.of_N Z.to_N deblob run_h host_tab invoke step access_of instr_of opcode_at decode bb_start skip.
+Extraction "model.ml" N.of_nat N.to_nat Z.of_N Z.to_N deblob run_h host_tab invoke step access_of instr_of opcode_at decode bb_start skip range_ok readable writable.
